@@ -191,3 +191,47 @@ Example C01_icmp6_nonvacuous :
   opts_wf (n_opts ndp_fresh) /\ opt_string_panics (mkOpt 25 (repeat 0 38)) = false /\
   opt_string_panics_orig (mkOpt 25 (repeat 0 38)) = false.
 Proof. split; [constructor|split; reflexivity]. Qed.
+
+(* ================================================================== ICMPv6Echo *)
+(* Echo request/reply body (icmp6msg.go:62-67,140-178), repaired: DecodeFromBytes assigns BaseLayer. *)
+Theorem C19_echo_no_panic : forall old data, is_panic (snd (fst (echo_decode_into old data))) = false.
+Proof. intros. apply echo_decode_no_panic. Qed.
+Print Assumptions C19_echo_no_panic.
+
+Theorem C05_echo_fresh : forall old data,
+  let '(l1, r1, t1) := echo_decode_into old data in
+  let '(l2, r2, t2) := echo_decode_into echo_fresh data in
+  r1 = r2 /\ t1 = t2 /\ (r1 = Ok tt -> l1 = l2).
+Proof. exact echo_decode_fresh. Qed.
+Print Assumptions C05_echo_fresh.
+
+(* the unchanged code never assigned BaseLayer: contents and payload of the previous packet stay *)
+Theorem C05_echo_fresh_orig_refuted : exists old data,
+  snd (fst (echo_decode_into_orig old data)) = Ok tt /\
+  fst (fst (echo_decode_into_orig old data)) <> fst (fst (echo_decode_into_orig echo_fresh data)).
+Proof. exists (mkEcho 1 2 [0; 1; 0; 2] [9]), [0; 3; 0; 4; 7; 7]. split; [reflexivity|]. vm_compute. discriminate. Qed.
+
+Theorem C06_echo_roundtrip : forall l payload junk, echo_okb l = true ->
+  exists bytes, echo_serialize l payload true true junk = (Ok bytes, l) /\
+    echo_decode_into echo_fresh bytes = (mkEcho (ec_id l) (ec_seq l) (firstn 4 bytes) payload, Ok tt, false) /\
+    forall junk', fst (echo_serialize (mkEcho (ec_id l) (ec_seq l) (firstn 4 bytes) payload) payload true true junk') = Ok bytes.
+Proof. exact echo_roundtrip. Qed.
+Print Assumptions C06_echo_roundtrip.
+
+(* the unchanged decoder lost the echo data: the payload written does not come back *)
+Theorem C06_echo_roundtrip_orig_refuted : exists l payload,
+  echo_okb l = true /\
+  match echo_serialize l payload true true [] with
+  | (Ok bytes, _) => ec_payload (fst (fst (echo_decode_into_orig echo_fresh bytes))) <> payload
+  | _ => False
+  end.
+Proof. exists (mkEcho 7 1 [] []), [1; 2; 3]. split; [reflexivity|]. vm_compute. discriminate. Qed.
+
+Theorem C07_echo_total_junk_free : forall l payload fx cs j1 j2,
+  is_panic (fst (echo_serialize l payload fx cs j1)) = false /\
+  echo_serialize l payload fx cs j1 = echo_serialize l payload fx cs j2.
+Proof. intros. rewrite !echo_serialize_closed. split; reflexivity. Qed.
+Print Assumptions C07_echo_total_junk_free.
+
+Example C06_echo_nonvacuous : echo_okb (mkEcho 4660 65535 [] []) = true.
+Proof. reflexivity. Qed.
